@@ -14,7 +14,7 @@ RULE = ("for every generated document pair of one input type all 288 cells {8 ou
         "{-,-j} x {equal,different} are enumerated; 8 input types (json, json5, yaml, csv, xml, html, plist, pickle); non-trivial = "
         "the documents differ; distinct = distinct (input type, pair, cell)")
 ASSUMPTIONS = ["what the output looks like is not judged, only that rendering completes (main() returns 0 or 1, no traceback)"]
-MINIMUMS = {"quick": {"cells_run": 5000}, "thorough": {"cells_run": 60000}}
+MINIMUMS = {"quick": {"cells_run": 5000, "cells_with_status_output_and_real_fds": 2000}, "thorough": {"cells_run": 60000, "cells_with_status_output_and_real_fds": 25000}}
 MODES = [[], ["-e"], ["-d"]]
 LOOKS = [[], ["--color"], ["--html"]]
 COND = [[], ["-j"]]
@@ -53,8 +53,13 @@ def check(case, ctx):
         da, db = families.dec(da), families.dec(db)      # documents with non-string keys travel in tagged form
     pa = families.tmpfile(formats.write(t, da), "-a" + formats.EXT[t])
     pb = families.tmpfile(formats.write(t, db), "-b" + formats.EXT[t])
-    argv = ["--no-status", "--format", case["fmt"]] + case["mode"] + case["look"] + case["cond"] + [pa, pb]
-    res = monitors.run_main(argv)
+    # every other cell runs the way a user's default invocation does: status output enabled and stdout/stderr with real file
+    # descriptors (StatusWriter's buffered tqdm.write path); the others with --no-status into in-memory streams
+    status_on = core.case_hash([case["type"], case["fmt"], case["mode"], case["look"], case["cond"], case["same"], repr(case["a"])]) % 2 == 0
+    argv = ([] if status_on else ["--no-status"]) + ["--format", case["fmt"]] + case["mode"] + case["look"] + case["cond"] + [pa, pb]
+    res = monitors.run_main(argv, real_files=status_on)
+    if ctx is not None:
+        ctx.count("cells_with_status_output_and_real_fds" if status_on else "cells_no_status_in_memory")
     if ctx is not None:
         ctx.count("cells_run")
         ctx.count(f"in:{t}")
